@@ -213,7 +213,7 @@ class MultiTaskBCD(BaseSolver):
                 p0 = max(len(np.where(W[:, 0] != 0)[0]), p0)
             else:
                 if W_init is not None:
-                    W = W_init.T
+                    W = W_init.T.copy()
                     XW = np.asfortranarray(X @ W)
                     p0 = max(len(np.where(W[:, 0] != 0)[0]), p0)
                 else:
